@@ -218,7 +218,9 @@ SendF(s, i) ==
         hit == sc.at = k1
         entry == [req |-> Step(s, i).name, val |-> me.pend.val, at |-> me.pend.at, gap |-> me.lastSleep]
         s1 == [s EXCEPT !.k = k1, !.log = Append(@, entry)]
-    IN IF hit /\ sc.kind = "transport" THEN FailF(s1, i, 0)
+    \* no response at all (status line cut / connection closed after the request was read, with zero response bytes):
+    \* the step fails, it is NOT sent again - the target sees it exactly once
+    IN IF hit /\ sc.kind \in {"transport", "eof"} THEN FailF(s1, i, 0)
        ELSE [s1 EXCEPT !.inst[i].pc = "post",
                        !.inst[i].pend.status = IF hit /\ sc.kind = "status" THEN 418 ELSE 200,
                        !.inst[i].pend.k = k1,
